@@ -192,6 +192,20 @@ impl Prop for C02Prop {
         };
         let mut l = LinkScn::new("C02", "corrupting-link", fe, buf);
         l.segs = segs;
+        if rng.chance(1, 150) {
+            // one frame that carries a run of 2^16 and more zero or 1b bytes *inside* its payload
+            // (whatever counts withheld zeros or escapes must not be a 16-bit quantity), growable buffer
+            let run = *rng.pick(&[65_535usize, 65_536, 65_537, 65_600]);
+            let b = *rng.pick(&[0u8, 0, 0x1b]);
+            let mut p = gen::gen_payload_upto(rng, 12);
+            p.extend(std::iter::repeat(b).take(run));
+            let tail = gen::gen_payload_upto(rng, 12);
+            p.extend_from_slice(&tail);
+            let at = rng.below(l.segs.len() + 1);
+            l.segs.insert(at, crate::scn::Seg::Frame { payload: crate::hexbytes::Hx(p), enc: crate::scn::Enc::Ref, faults: vec![] });
+            l.buf = BufKind::Vec;
+            l.sub = "corrupting-link+64k-run".into();
+        }
         l.extra_polls = rng.below(3);
         // the application and the source misbehave too: soundness must not depend on them
         let len = build_stream(&l.segs).stream.len();
